@@ -20,22 +20,37 @@ enum Prof {
     Prod,
     Dot,
 }
+/// as in the harness: the first two profiles get their names from the REAL `#[derive(ConfigProfile)]`
+#[derive(ConfigProfile, Debug, Clone, Copy, PartialEq, Eq)]
+enum Derived {
+    Dev,
+    #[px(profile = "prd")]
+    Prod,
+}
 impl std::str::FromStr for Prof {
     type Err = String;
     fn from_str(s: &str) -> Result<Self, String> {
-        match s {
-            "dev" => Ok(Prof::Dev),
-            "prd" => Ok(Prof::Prod),
-            "p.q" => Ok(Prof::Dot),
-            _ => Err(format!("unknown profile {s}")),
+        if s == "p.q" {
+            return Ok(Prof::Dot);
+        }
+        match s.parse::<Derived>() {
+            Ok(Derived::Dev) => Ok(Prof::Dev),
+            Ok(Derived::Prod) => Ok(Prof::Prod),
+            Err(e) => Err(e.to_string()),
         }
     }
 }
 impl AsRef<str> for Prof {
     fn as_ref(&self) -> &str {
         match self {
-            Prof::Dev => "dev",
-            Prof::Prod => "prd",
+            Prof::Dev => {
+                static D: Derived = Derived::Dev;
+                D.as_ref()
+            }
+            Prof::Prod => {
+                static D: Derived = Derived::Prod;
+                D.as_ref()
+            }
             Prof::Dot => "p.q",
         }
     }
